@@ -58,6 +58,16 @@ class Verdict:
         self.classes.extend(names)
 
 
+def decide(mod, case):
+    """check_case under the logging level derived from the case (see harness/budget.py)."""
+    from . import budget
+    try:
+        budget.set_level_for_case(codec.digest(case))
+    except TypeError:
+        pass
+    return mod.check_case(case)
+
+
 class Phase:
     def __init__(self, name, strategy=None, enum=None, examples=(0, 0), exhaustive=False, note="",
                  machine=None, minimise=None, steps=12):
@@ -227,7 +237,7 @@ def run_shard(args):
                 for i, case in enumerate(ph.enum()):
                     if i % nshards != shard:
                         continue
-                    stats.add(mod, ph.name, shard, case, mod.check_case(case))
+                    stats.add(mod, ph.name, shard, case, decide(mod, case))
             else:
                 total = phase_total(mod, ph, tier)
                 n = total // nshards + (1 if shard < total % nshards else 0)
@@ -240,7 +250,7 @@ def run_shard(args):
                     continue
 
                 def fn(case, ph=ph):
-                    stats.add(mod, ph.name, shard, case, mod.check_case(case))
+                    stats.add(mod, ph.name, shard, case, decide(mod, case))
                 run_strategy(ph.strategy(), n, shard_seed(seed, shard, pi), fn)
         return ("ok", stats.export())
     except BaseException as e:  # harness error inside a worker
@@ -266,7 +276,7 @@ def shrink_failure(mod, tier, seed, nshards, rec, sig, budget_s):
     if ph.machine is not None:
         if ph.minimise is not None:
             small = ph.minimise(best["case"], sig)
-            v = mod.check_case(small)
+            v = decide(mod, small)
             for f in v.fails:
                 if f.sig == sig:
                     return small, f.detail
@@ -279,7 +289,7 @@ def shrink_failure(mod, tier, seed, nshards, rec, sig, budget_s):
     def fn(case):
         if time.time() - t0 > budget_s:
             return                       # stop failing: the shrinker winds down
-        v = mod.check_case(case)
+        v = decide(mod, case)
         for f in v.fails:
             if f.sig == sig and not f.known:
                 fcase = f.case if f.case is not None else case
@@ -324,7 +334,7 @@ def replay(prop_id, path):
     with open(path) as f:
         data = json.load(f)
     case = codec.dec(data["case"])
-    v = mod.check_case(case)
+    v = decide(mod, case)
     bad = [f for f in v.fails if not f.known]
     for f in v.fails:
         tag = f"KNOWN-FINDING({f.known})" if f.known else "FAIL"
@@ -354,7 +364,7 @@ def run(prop_id, tier, seed, nshards=None):
     for kid, entry in known.items():
         for case_enc in entry.get("replays", {}).get(prop_id, []):
             case = codec.dec(case_enc)
-            v = mod.check_case(case)
+            v = decide(mod, case)
             st0.add(mod, "known-finding-replay", 0, case, v)
             if not any(f.known == kid for f in v.fails):
                 known_notes.append(f"listed finding {kid} did not reproduce on its recorded input")
@@ -366,7 +376,7 @@ def run(prop_id, tier, seed, nshards=None):
                 continue
             with open(os.path.join(rdir, name)) as f:
                 case = codec.dec(json.load(f)["case"])
-            st0.add(mod, "regression-replays", 0, case, mod.check_case(case))
+            st0.add(mod, "regression-replays", 0, case, decide(mod, case))
     extra_parts.append(st0.export())
 
     # 2. the search
@@ -387,7 +397,7 @@ def run(prop_id, tier, seed, nshards=None):
         fuzz_info, fuzz_cases = mod.fuzz_stage(tier, seed)
         st1 = Stats()
         for case in fuzz_cases:
-            st1.add(mod, "atheris-crash-recheck", 0, case, mod.check_case(case))
+            st1.add(mod, "atheris-crash-recheck", 0, case, decide(mod, case))
         extra_parts.append(st1.export())
     tot = merge(extra_parts + [r[1] for r in results])
 
